@@ -173,7 +173,7 @@ let gen_mode seed tier out =
   st := Int64.of_string seed;
   ignore (next ());
   let oc = open_out out in
-  let per = if tier = "thorough" then 24 else 6 in
+  let per = if tier = "thorough" then 24 else 10 in
   List.iter (fun (name, ss) ->
       List.iteri (fun si s ->
         let n = if si = 0 then per else max 2 (per / 3) in
